@@ -31,6 +31,10 @@
 (*             "h2c" (HTTP/2 without TLS, and HTTP/1.1)                    *)
 (*   http2     -http2 (default true)     h2c   -h2c                        *)
 (*   hosthdr   -header "Host: virtual.example": the request's host          *)
+(*   dnsdest   "none" | "forever" | "off": the -connect-to destination is a   *)
+(*             name served by the driver's DNS server (-resolvers), with the *)
+(*             default -dns-ttl (kept for ever) or -dns-ttl=-1 (not kept);   *)
+(*             o.dnsq = the number of address queries the server received    *)
 (*   lookup    the targets name the server as localhost (looked up by the     *)
 (*             caching dialer) and -dns-ttl=1us: the ttl is how long an      *)
 (*             answer is kept, not how long a lookup may take                *)
@@ -69,7 +73,7 @@ Min(a, b) == IF a <= b THEN a ELSE b
 Base == [server |-> "plain", trust |-> "na", format |-> "http", lazy |-> TRUE, bad |-> "none", rate |-> 0, maxw |-> 1, workers |-> 1,
          name |-> "", hdr |-> FALSE, body |-> FALSE, chunked |-> FALSE, maxbody |-> -1, redirects |-> "default", keepalive |-> TRUE,
          timeout |-> "default", connectto |-> FALSE, laddr |-> FALSE, prom |-> FALSE, maxconn |-> 0, hosts |-> 1,
-         http2 |-> TRUE, h2c |-> FALSE, hosthdr |-> FALSE, stall |-> FALSE, head |-> FALSE, lookup |-> FALSE]
+         http2 |-> TRUE, h2c |-> FALSE, hosthdr |-> FALSE, stall |-> FALSE, head |-> FALSE, lookup |-> FALSE, dnsdest |-> "none"]
 
 Valid(c) ==
     /\ c.server \in {"plain", "tls", "unix", "tls2", "h2c"} /\ c.format \in {"http", "json"} /\ c.bad \in {"none", "late"}
@@ -77,6 +81,8 @@ Valid(c) ==
     /\ (c.h2c => c.server = "h2c") /\ c.trust \in {"na", "insecure", "rootcert", "none"}
     /\ (c.stall => c = [Base EXCEPT !.stall = TRUE, !.lazy = FALSE, !.rate = 200, !.maxw = 64])
     /\ (c.lookup => c.server = "plain" /\ ~c.connectto /\ ~c.laddr /\ ~c.hosthdr)
+    /\ c.dnsdest \in {"none", "forever", "off"}
+    /\ (c.dnsdest # "none" => c.connectto /\ c.server = "plain" /\ c.hosts = 1 /\ ~c.keepalive /\ ~c.laddr /\ c.timeout = "default" /\ c.maxconn = 0)
     /\ (c.head => ~c.body)           \* (a HEAD request is sent without a body here)
     /\ c.rate \in {0, 2, 50, 200}          \* (2 per second: the duration is shorter than one pacing interval) /\ c.maxw \in {1, 3, 64} /\ (c.maxw = 64 => c.stall) /\ c.workers \in {1, 3}
     /\ c.maxbody \in {-1, 0, 2, 9} /\ c.redirects \in {"default", "nofollow"} /\ c.timeout \in {"default", "short"}
@@ -111,6 +117,8 @@ Single ==
           [Base EXCEPT !.lazy = FALSE, !.rate = 2], [Base EXCEPT !.lazy = FALSE, !.rate = 2, !.maxw = 3, !.workers = 3],
           [Base EXCEPT !.stall = TRUE, !.lazy = FALSE, !.rate = 200, !.maxw = 64],
           [Base EXCEPT !.lookup = TRUE], [Base EXCEPT !.lookup = TRUE, !.lazy = FALSE, !.rate = 50, !.maxw = 3],
+          [Base EXCEPT !.connectto = TRUE, !.keepalive = FALSE, !.dnsdest = "forever"], [Base EXCEPT !.connectto = TRUE, !.keepalive = FALSE, !.dnsdest = "off"],
+          [Base EXCEPT !.connectto = TRUE, !.keepalive = FALSE, !.dnsdest = "forever", !.lazy = FALSE, !.rate = 50, !.maxw = 3],
           [Base EXCEPT !.head = TRUE], [Base EXCEPT !.head = TRUE, !.maxbody = 2], [Base EXCEPT !.head = TRUE, !.maxbody = 0, !.server = "tls", !.trust = "insecure"],
           [Base EXCEPT !.hosthdr = TRUE], [Base EXCEPT !.hosthdr = TRUE, !.hdr = TRUE, !.format = "json"], [Base EXCEPT !.hosthdr = TRUE, !.connectto = TRUE],
           [Base EXCEPT !.maxconn = 1], [Base EXCEPT !.maxconn = 1, !.maxw = 3], [Base EXCEPT !.connectto = TRUE, !.hosts = 2],
@@ -233,6 +241,10 @@ CmdOK(c, o) ==
        \* -keepalive=false: a connection per request; one sequential worker with keep-alive stays on one connection
        /\ (~c.keepalive /\ Reaches(c) /\ c.server # "unix" /\ Proto(c) = "HTTP/1.1" => Cardinality({o.reqs[j].conn : j \in 1..Len(o.reqs)}) = Len(o.reqs))
        /\ (c.keepalive /\ c.maxw = 1 /\ c.timeout = "default" /\ Reaches(c) /\ c.server # "unix" /\ Proto(c) = "HTTP/1.1" => Cardinality({o.reqs[j].conn : j \in 1..Len(o.reqs)}) = Cardinality({o.reqs[j].dialhost : j \in 1..Len(o.reqs)}))   \* one per host attacked
+       \* -connect-to with a destination given by name, looked up through -resolvers: the mapped connections still go through
+       \* the -dns-ttl policy - kept for ever by default (one lookup however many connections), none kept with -1
+       /\ (c.dnsdest = "forever" /\ Reaches(c) => o.dnsq = 1)
+       /\ (c.dnsdest = "off" /\ Reaches(c) => o.dnsq >= Len(o.reqs))
        \* -prometheus-addr: by the time the last target is answered the exporter has counted the six results before it
        /\ (c.prom => o.prom_count >= 6)
 =============================================================================
